@@ -1,24 +1,37 @@
 """C16 transaction execution is atomic; the state root is a function of the state.
-TLC enumerates histories of spec/StateMachine.tla (command scripts of writes/deletes/overwrites over two module stores
-x event patterns x ok/fail, then commit / crash-after-application-commit / revert / restart) exhaustively inside
-several plans and by simulation for longer ones, checks the spec-level invariants and prints (a sample of) the complete
-histories with the expected observations; cmd/c16 replays each on the real framework.ABIHandler + statemachine.Executer
-with a scripted test module, using the engine's own call sequence and request shapes, and compares the returned events,
-the state read back through the real stores, the state DB and the committed / reverted / recovered state roots (expected
-root = SHA-256 fold of the spec's LIP-0039 term)."""
+TLC enumerates histories of spec/StateMachine.tla (command scripts of writes/deletes/overwrites/snapshot+restore over two
+module stores x event patterns x ok/fail, hooks of two modules around the command and around the transactions, then
+commit / crash-after-application-commit / block with a wrong header root / revert / revert or start with a wrong root /
+restart / genesis) exhaustively inside several plans and by simulation for longer ones, checks the spec-level invariants
+and prints (a sample of) the complete histories with the expected observations; cmd/c16 replays each on the real
+framework.ABIHandler + statemachine.Executer with two scripted test modules, using the engine's own call sequence and
+request shapes, and compares the returned events (order, content), the state read back through the real stores (Get, Has,
+Iterate, Range; fresh and held handles), the state DB and the committed / reverted / recovered / genesis state roots
+(expected root = SHA-256 fold of the spec's LIP-0039 term).  The histories of two simulation runs are replayed once more on
+a strict in-memory file system with a crash at every file-system operation of a Commit / Revert / Init."""
 import json, os, re
+from concurrent.futures import ThreadPoolExecutor
 import common
 from common import Inconclusive, finish, log
 from props import c01
 
 LEVEL = "model_checking"
+# runs whose histories are replayed once more with a crash at every file-system operation of a Commit / Revert / Init
+CRASH_FROM = ("lose", "badS")
+CRASH_CALLS = ("commit", "revert", "init")
 SUMS = ("histories", "steps", "tx_executed", "tx_failed", "tx_state_observations", "events_compared", "commits", "dry_run_commits",
-        "reverts", "restarts", "restarts_app_ahead", "restarts_app_ahead_2_or_more", "engine_tips_lost", "roots_compared", "state_dumps_compared", "histories_aborted_after_violation")
+        "reverts", "restarts", "restarts_app_ahead", "restarts_app_ahead_2_or_more", "engine_tips_lost", "roots_compared", "state_dumps_compared", "histories_aborted_after_violation",
+        "store_views_compared", "store_views_through_held_handles", "failed_tx_observed_through_held_handles", "command_snapshots", "command_snapshot_restores",
+        "failed_tx_with_after_hook_events", "failed_tx_with_before_hook_of_second_module", "event_contents_compared", "block_hook_events_compared",
+        "genesis_blocks", "reverts_and_recoveries_over_long_keys")
+MAPS = ("hook_writes", "wrong_roots_rejected", "crash_points", "crash_outcomes")
+# replay-file keys handed through to the harness (mode and embedding of the history)
+MODE_KEYS = ("gen", "prefetch", "held", "keylens", "vallen", "crash")
 
 
 def interesting(h):
     """a history with a failing transaction that wrote, deleted and emitted events"""
-    return any(s["op"] == "tx" and s["ok"] == 0 and len(s["w"]) >= 2 and any(w[1] == 0 for w in s["w"]) and len(s["e"]) >= 2 for s in h)
+    return any(s["op"] == "tx" and s["ok"] == 0 and len(s["w"]) >= 2 and any(w[0] != 0 and w[1] == 0 for w in s["w"]) and len(s["e"]) >= 2 for s in h)
 
 
 def generate(ctx, name, base, cfgkw, **kw):
@@ -64,20 +77,29 @@ def engine_request_shape(ctx):
     return sf
 
 
-def replay(ctx, binp, hf, mf, name):
+def replay(ctx, binp, hf, mf, name, mode=()):
     of = ctx.path(name + "_res.json")
-    p = ctx.run([binp, hf, mf, of, ctx.c16_shape], timeout=3000)
+    p = ctx.run([binp] + list(mode) + [hf, mf, of, ctx.c16_shape], timeout=3000)
     if p.returncode != 0 or not os.path.exists(of):
         raise Inconclusive("c16 harness failed (rc=%d): %s" % (p.returncode, p.stderr[-1500:]))
     res = json.load(open(of))
+    # what was observed on the real code is forwarded first: a tool failure in ANOTHER history of the same run must not
+    # turn an observed violation into "inconclusive"
+    for v in res.get("violations") or []:
+        ctx.violation(v["key"], v["what"], v.get("replay"))
     if res.get("harness_errors"):
-        raise Inconclusive("c16 harness error: %s" % res["harness_errors"][:2])
+        if not ctx.violations:
+            raise Inconclusive("c16 harness error: %s" % res["harness_errors"][:2])
+        log("[c16] %s: harness errors next to violations (not a verdict): %s" % (name, res["harness_errors"][:1]))
     return res
 
 
 def project(step):
     """compact view of a step for the evidence samples"""
     d = dict(op=step["op"], h=step["h"], st=step["st"])
+    for k in ("hw", "aw", "bh", "ah", "bad"):
+        if step.get(k):
+            d[k] = step[k]
     if step["op"] == "tx":
         d.update(w=step["w"], e=step["e"], ok=step["ok"], ev=[[x["n"], x["s"]] for x in step["ev"]])
     if step["op"] == "restart":
@@ -93,8 +115,8 @@ def run(ctx):
         if isinstance(d, list):
             d = dict(history=d)
         line = dict(history=d["history"])
-        for k in ("gen", "prefetch"):
-            if k in d:
+        for k in MODE_KEYS:
+            if d.get(k) is not None:
                 line[k] = d[k]
         # the META line (tree-key bits) comes from the spec
         cfg = c01.write_cfg(ctx, "meta", c01.cfg_text("StateMachine_tx", Plan="PlanTx1", DumpEvery=0, Presets="Presets2"))
@@ -104,62 +126,122 @@ def run(ctx):
             raise Inconclusive("no META line")
         mf = ctx.path("meta.json"); json.dump(metas[0], open(mf, "w"))
         hf = ctx.path("replay_h.ndjson"); open(hf, "w").write(json.dumps(line) + "\n")
-        res = replay(ctx, binp, hf, mf, "replay")
-        for v in res.get("violations") or []:
-            ctx.violation(v["key"], v["what"], v.get("replay"))
+        res = replay(ctx, binp, hf, mf, "replay", mode=("crash",) if d.get("crash") else ())
         finish(ctx, LEVEL, dict(traces_validated_against_impl=res["histories"], samples=[[project(s) for s in d["history"]]],
                                 replayed_steps=res["steps"]))
     q = ctx.tier == "quick"
-    runs = []
+    # two lanes run side by side: the large exhaustive plans, and the small directed plans + simulations
+    big, small = [], []
     if q:
         # one transaction (<= 2 writes, <= 3 events, <= 4 operations) on 3 preset states x commit|crash x revert|restart
-        runs.append(("tx2", "StateMachine_tx", dict(Plan="PlanTx2", DumpEvery=12), dict(workers=8), True))
+        big.append(("tx2", "StateMachine_tx", dict(Plan="PlanTx2", DumpEvery=12), dict(workers=8), True))
         # two blocks, commit|crash, revert|restart, revert|transaction, commit
-        runs.append(("seqA", "StateMachine_tx", dict(Plan="PlanSeqA", DumpEvery=16), dict(workers=8), True))
+        big.append(("seqA", "StateMachine_tx", dict(Plan="PlanSeqA", DumpEvery=16), dict(workers=8), True))
         # two transactions in one block
-        runs.append(("2txA", "StateMachine_tx", dict(Plan="Plan2TxA", DumpEvery=20), dict(workers=10), True))
+        big.append(("2txA", "StateMachine_tx", dict(Plan="Plan2TxA", DumpEvery=20), dict(workers=10), True))
+        # wrong roots: a block with a wrong header root | a commit, then a removal | a start with a wrong root, then a real one
+        small.append(("bad", "StateMachine_tx", dict(Plan="PlanBadA", DumpEvery=2), dict(workers=3), True))
+        # genesis block (generated root = committed root = term), one transaction, commit|crash, removal back to genesis|restart
+        small.append(("gen", "StateMachine_tx", dict(Plan="PlanGenA", DumpEvery=1), dict(workers=2), True))
+        # the command takes snapshots of the stores and restores them (<= 3 operations)
+        small.append(("snap", "StateMachine_tx", dict(Plan="PlanSnapA", Presets="Presets2", DumpEvery=4), dict(workers=3), True))
         # three blocks, the engine loses one or two tips (application 1..3 blocks ahead), recovery, revert|new block
-        runs.append(("lose", "StateMachine_sim", dict(Plan="PlanLoseS"), dict(workers=1, simulate=150, depth=12), False))
-        runs.append(("sim", "StateMachine_sim", dict(Plan="PlanSim14"), dict(workers=1, simulate=300, depth=16), False))
+        small.append(("lose", "StateMachine_sim", dict(Plan="PlanLoseS"), dict(workers=1, simulate=150, depth=12), False))
+        small.append(("sim", "StateMachine_sim", dict(Plan="PlanSim14"), dict(workers=1, simulate=300, depth=16), False))
+        # wrong roots anywhere in longer histories
+        small.append(("badS", "StateMachine_sim", dict(Plan="PlanBadS"), dict(workers=1, simulate=250, depth=14), False))
     else:
-        runs.append(("tx2", "StateMachine_tx", dict(Plan="PlanTx2", DumpEvery=1), dict(workers=8), True))
-        runs.append(("tx3", "StateMachine_tx", dict(Plan="PlanTx3", DumpEvery=40), dict(workers=12), True))
-        runs.append(("tx4", "StateMachine_tx", dict(Plan="PlanTx4", Presets="Presets1", DumpEvery=160), dict(workers=12, timeout=2400), True))
-        runs.append(("seqB", "StateMachine_tx", dict(Plan="PlanSeqB", DumpEvery=80), dict(workers=12), True))
-        runs.append(("2txB", "StateMachine_tx", dict(Plan="Plan2TxB", DumpEvery=80), dict(workers=12), True))
-        runs.append(("lose", "StateMachine_sim", dict(Plan="PlanLoseS"), dict(workers=1, simulate=1500, depth=12), False))
-        runs.append(("sim", "StateMachine_sim", dict(Plan="PlanSim22"), dict(workers=1, simulate=2500, depth=24), False))
+        big.append(("tx2", "StateMachine_tx", dict(Plan="PlanTx2", DumpEvery=1), dict(workers=8), True))
+        big.append(("tx3", "StateMachine_tx", dict(Plan="PlanTx3", DumpEvery=40), dict(workers=12), True))
+        big.append(("tx4", "StateMachine_tx", dict(Plan="PlanTx4", Presets="Presets1", DumpEvery=160), dict(workers=12, timeout=2400), True))
+        big.append(("seqB", "StateMachine_tx", dict(Plan="PlanSeqB", DumpEvery=80), dict(workers=12), True))
+        big.append(("2txB", "StateMachine_tx", dict(Plan="Plan2TxB", DumpEvery=80), dict(workers=12), True))
+        small.append(("bad", "StateMachine_tx", dict(Plan="PlanBadB", DumpEvery=4), dict(workers=4), True))
+        small.append(("gen", "StateMachine_tx", dict(Plan="PlanGenB", DumpEvery=4), dict(workers=4), True))
+        small.append(("snap", "StateMachine_tx", dict(Plan="PlanSnapB", Presets="Presets2", DumpEvery=40), dict(workers=4, timeout=2400), True))
+        small.append(("lose", "StateMachine_sim", dict(Plan="PlanLoseS"), dict(workers=1, simulate=1500, depth=12), False))
+        small.append(("sim", "StateMachine_sim", dict(Plan="PlanSim22"), dict(workers=1, simulate=2500, depth=24), False))
+        small.append(("badS", "StateMachine_sim", dict(Plan="PlanBadS"), dict(workers=1, simulate=2500, depth=14), False))
     tot = {k: 0 for k in SUMS}
+    maps = {k: {} for k in MAPS}
     counts = {}
     degraded = {}
     samples = []
     distinct = 0
     exhaustive_states = 0
     per_run = []
-    for name, base, cfgkw, kw, exh in runs:
-        hf, mf, n, sample, r = generate(ctx, name, base, cfgkw, **kw)
+
+    def lane(runs):
+        done = []
+        for name, base, cfgkw, kw, exh in runs:
+            hf, mf, n, sample, r = generate(ctx, name, base, cfgkw, **kw)
+            res = replay(ctx, binp, hf, mf, name)
+            extra = []
+            if name in CRASH_FROM:
+                # crash points inside Commit / Revert / Init of the same histories, on a strict in-memory file system
+                extra.append((name + "-crash", replay(ctx, binp, hf, mf, name + "_crash", mode=("crash",))))
+            done.append((name, cfgkw, exh, sample, r, res, extra))
+        return done
+
+    with ThreadPoolExecutor(max_workers=2) as pool:
+        futures = [pool.submit(lane, big), pool.submit(lane, small)]
+        results = [f.result() for f in futures]
+    ctx.states = sum(x["distinct"] for x in ctx.tlc_runs)
+    ctx.transitions = sum(x["generated"] for x in ctx.tlc_runs)
+    for name, cfgkw, exh, sample, r, res, extra in results[0] + results[1]:
         if exh:
             exhaustive_states += r["distinct"]
-        res = replay(ctx, binp, hf, mf, name)
-        for k in SUMS:
-            tot[k] += res.get(k, 0)
-        distinct = max(distinct, res.get("distinct_committed_states", 0))
-        for k, v in (res.get("violation_counts") or {}).items():
-            counts[k] = counts.get(k, 0) + v
-        for k, v in (res.get("degraded_histories") or {}).items():
-            degraded[k] = degraded.get(k, 0) + v
-        for v in res.get("violations") or []:
-            ctx.violation(v["key"], v["what"], v.get("replay"))
+        for rname, rr in [(name, res)] + extra:
+            for k in SUMS:
+                if k == "histories" and rname != name:
+                    continue        # the crash-point replays use the same histories
+                tot[k] += rr.get(k, 0)
+            for mk in MAPS:
+                for k, v in (rr.get(mk) or {}).items():
+                    maps[mk][k] = maps[mk].get(k, 0) + v
+            distinct = max(distinct, rr.get("distinct_committed_states", 0))
+            for k, v in (rr.get("violation_counts") or {}).items():
+                counts[k] = counts.get(k, 0) + v
+            for k, v in (rr.get("degraded_histories") or {}).items():
+                degraded[k] = degraded.get(k, 0) + v
         per_run.append(dict(config=name, plan=cfgkw.get("Plan"), tlc_states=r["distinct"], histories_replayed=res["histories"],
-                            sampled_one_in=cfgkw.get("DumpEvery", 1), exhaustive_enumeration=exh))
+                            sampled_one_in=cfgkw.get("DumpEvery", 1), exhaustive_enumeration=exh,
+                            crash_points=sum((extra[0][1].get("crash_points") or {}).values()) if extra else 0))
         if sample is not None and len(samples) < 3:
             samples.append(dict(config=name, history=[project(s) for s in sample]))
-        log("[c16] %s: histories=%d steps=%d tx=%d (failed %d) commits=%d dry-runs=%d reverts=%d restarts=%d (ahead %d) roots=%d violations=%s" % (
+        log("[c16] %s: histories=%d steps=%d tx=%d (failed %d) commits=%d dry-runs=%d reverts=%d restarts=%d (ahead %d) roots=%d rejected=%s genesis=%d violations=%s" % (
             name, res["histories"], res["steps"], res["tx_executed"], res["tx_failed"], res["commits"], res["dry_run_commits"],
             res["reverts"], res["restarts"], res["restarts_app_ahead"], res["roots_compared"],
+            json.dumps(res.get("wrong_roots_rejected") or {}, sort_keys=True), res.get("genesis_blocks", 0),
             json.dumps(res.get("violation_counts") or {}, sort_keys=True)))
-    if not ctx.violations and (min(tot["tx_failed"], tot["commits"], tot["reverts"], tot["restarts_app_ahead"], tot["restarts_app_ahead_2_or_more"], tot["dry_run_commits"]) < 50 or tot["tx_state_observations"] < 1000):
-        raise Inconclusive("the histories did not exercise failing transactions / commits / reverts / recoveries enough: vacuous")
+        for rname, rr in extra:
+            log("[c16] %s: histories=%d crash points=%s outcomes=%s violations=%s" % (
+                rname, rr["histories"], json.dumps(rr.get("crash_points") or {}, sort_keys=True),
+                json.dumps(rr.get("crash_outcomes") or {}, sort_keys=True), json.dumps(rr.get("violation_counts") or {}, sort_keys=True)))
+    if not ctx.violations:
+        # non-vacuity: a run in which a scenario never happened proves nothing about it
+        thin = []
+        if min(tot["tx_failed"], tot["commits"], tot["reverts"], tot["restarts_app_ahead"], tot["restarts_app_ahead_2_or_more"], tot["dry_run_commits"]) < 50 or tot["tx_state_observations"] < 1000:
+            thin.append("failing transactions / commits / reverts / recoveries")
+        for k, least in (("failed_tx_with_after_hook_events", 50), ("failed_tx_with_before_hook_of_second_module", 50),
+                         ("store_views_through_held_handles", 1000), ("failed_tx_observed_through_held_handles", 50),
+                         ("command_snapshot_restores", 50), ("event_contents_compared", 1000), ("block_hook_events_compared", 100),
+                         ("genesis_blocks", 20), ("reverts_and_recoveries_over_long_keys", 100)):
+            if tot[k] < least:
+                thin.append("%s=%d" % (k, tot[k]))
+        for hook in ("before-command", "after-command", "before-block", "after-block"):
+            for mod in ("scripted", "second"):
+                if maps["hook_writes"].get(hook + ":" + mod, 0) < 20:
+                    thin.append("hook writes %s by module %s" % (hook, mod))
+        for call in ("commit", "revert", "init"):
+            for bad in ("flip", "prev"):
+                if maps["wrong_roots_rejected"].get(call + ":" + bad, 0) < 10:
+                    thin.append("wrong root (%s) offered to %s" % (bad, call))
+        for call in CRASH_CALLS:
+            if maps["crash_points"].get(call, 0) < 10:
+                thin.append("crash points inside %s" % call)
+        if thin:
+            raise Inconclusive("the histories did not exercise enough of: %s: vacuous" % "; ".join(thin))
     cov = dict(traces_validated_against_impl=tot["histories"], samples=samples, replayed_steps=tot["steps"],
                transactions_executed=tot["tx_executed"], failing_transactions_executed=tot["tx_failed"],
                state_observations_after_command=tot["tx_state_observations"], events_compared=tot["events_compared"],
@@ -168,16 +250,33 @@ def run(ctx):
                state_db_dumps_compared=tot["state_dumps_compared"], distinct_committed_states_max_per_run=distinct,
                histories_cut_short_after_a_violation=tot["histories_aborted_after_violation"],
                histories_continued_in_degraded_mode=degraded, violation_counts=counts,
+               store_views_compared=tot["store_views_compared"], store_views_through_held_handles=tot["store_views_through_held_handles"],
+               failed_transactions_observed_through_held_handles=tot["failed_tx_observed_through_held_handles"],
+               command_snapshots=tot["command_snapshots"], command_snapshot_restores=tot["command_snapshot_restores"],
+               hook_writes=maps["hook_writes"], failed_transactions_with_after_hook_events=tot["failed_tx_with_after_hook_events"],
+               failed_transactions_with_before_hook_of_second_module=tot["failed_tx_with_before_hook_of_second_module"],
+               event_contents_compared=tot["event_contents_compared"], block_hook_events_compared=tot["block_hook_events_compared"],
+               wrong_roots_rejected=maps["wrong_roots_rejected"], genesis_blocks=tot["genesis_blocks"],
+               reverts_and_recoveries_over_long_keys=tot["reverts_and_recoveries_over_long_keys"],
+               crash_points=maps["crash_points"], crash_outcomes=maps["crash_outcomes"],
                exhaustive_states=exhaustive_states, runs=per_run,
                rule="TLC state = (application chain, block in execution, history); every complete history of a plan (or the stated "
                     "sample of them) is replayed on the real ABIHandler twice per block where it is the node's own block (generator "
                     "pass with DryRun commit, then consensus pass) and once where it comes from a peer")
     finish(ctx, LEVEL, cov, assumptions=[
         "2 module stores x 3 keys x 2 values; tree keys = storePrefix ++ SHA-256(key), their leading 64 bits are fixed in MCStateMachine.tla and re-derived by the harness",
+        "every history is replayed with one concrete embedding of the abstract keys and values: store keys of 2..64 bytes (10 length profiles, all with the same "
+        "16 leading SHA-256 bits per abstract key so that the spec's tree shape holds), values / event data / topics of 0..100 bytes",
         "SHA-256 is injective on the terms that occur",
-        "a command is a straight-line script (<= 4 writes, <= 3 events); reads do not influence it",
-        "the scripted module observes the stores in AfterCommandExecute (and, for half of the histories, reads them in BeforeCommandExecute)",
+        "a command is a straight-line script (<= 4 writes, <= 3 events, optionally a snapshot of the stores and its restoration); reads do not influence it",
+        "two modules (module i owns store i, the command belongs to the first); a hook that writes a cell is the hook of the owning module and logs one revertible "
+        "and one unrevertible event; the hooks' writes are functions of the script in the exhaustive plans and drawn at random in the simulations",
+        "the modules observe the stores (Get, Has, Iterate, Range; rotating order) in AfterCommandExecute before and after the after-hooks' writes (and, for half of the "
+        "histories, in BeforeCommandExecute); in half of the histories also through store handles taken before the command (held within ONE transaction only)",
+        "event content: data and the module's own topic as logged, first topic = transaction id, height = block height, standard event last (LIP-0065: the events feed the event root)",
+        "a wrong root is a flipped bit or the root of the neighbouring state; after a rejected Commit / Revert / Init only the state prefix of the DB and a fresh start are checked",
         "the application is at most three blocks ahead of the engine at a restart (one by a crash between the two commits, two by an engine that lost its tip); an application behind the engine is out of scope",
         "where a real call panics on the engine's request shape the history is replayed once more with the deviation stated in the violation text "
         "(Consensus supplied to ExecuteTransaction; an execution context initialised before Init) so that the remaining defects are still observed",
-        "in-memory pebble (no torn writes): a crash loses exactly the block in execution or the engine's commit"])
+        "crash points: pebble on a strict in-memory file system, a crash loses everything not synced before the k-th file-system operation of the call (Commit / Revert / Init "
+        "of up to three steps per history of the runs %s); elsewhere in-memory pebble, where a crash loses exactly the block in execution or the engine's commit" % (CRASH_FROM,)])
